@@ -135,10 +135,16 @@ def prune(keep=3):
         return
     cur = os.path.join(BUILD, tree_key())
     ds = [d for d in ds if d != cur]
-    ds.sort(key=lambda d: os.path.getmtime(d), reverse=True)
+    def mt(d):                                          # another process may be removing entries at the same time
+        try:
+            return os.path.getmtime(d)
+        except OSError:
+            return 0.0
+    ds.sort(key=mt, reverse=True)
     now = time.time()
     for d in ds[keep - 1:]:
-        if now - os.path.getmtime(d) > 3 * 3600:     # never remove a tree another process may be using
+        m = mt(d)
+        if m and now - m > 3 * 3600:                     # never remove a tree another process may be using
             shutil.rmtree(d, ignore_errors=True)
     try:
         os.utime(cur, None)
